@@ -128,8 +128,17 @@ func (m *Machine) replay() {
 			}
 			// FIFO: no earlier accepted job of the pipeline is still waiting (unchanged definition). This also
 			// holds for a job that is started at once: with a free slot and no delay nobody can be waiting.
+			// (the premise is a queue of jobs of one definition: while a job that was accepted under an earlier
+			// definition of the pipeline still waits - with the delay of that definition, say - nothing is asserted
+			// about the order of the others; correction 36)
+			mixed := false
 			for _, o := range order {
-				if o == j || o.Pipeline != p || o.AcceptIdx > j.AcceptIdx {
+				if o.Pipeline == p && o.PipeGen != j.PipeGen && waitingAt(o, mon.startSeq[o.ID], e.Seq) {
+					mixed = true
+				}
+			}
+			for _, o := range order {
+				if mixed || o == j || o.Pipeline != p || o.AcceptIdx > j.AcceptIdx {
 					continue
 				}
 				if o.PipeGen != j.PipeGen || m.pipeGenAt(p, e.Seq) != j.PipeGen {
